@@ -31,7 +31,7 @@ fn top(nhays: u8) -> impl Strategy<Value = TOp> {
     ]
 }
 
-fn program(max_threads: usize) -> impl Strategy<Value = Program> {
+pub fn program(max_threads: usize) -> impl Strategy<Value = Program> {
     (
         subgen::needle_spec(),
         prop::collection::vec((prop::collection::vec(subgen::piece(), 1..=6), any::<u64>()), 2..=4),
@@ -192,4 +192,25 @@ pub fn replay(ctx: &Ctx, v: &Value) -> Option<Value> {
     }
     std::fs::remove_dir_all(&dir).ok();
     bad
+}
+
+/// `mv gen-threads --out <dir> <count>`: small programs for the Miri / TSan stages.
+pub fn gen_threads(ctx: &Ctx) {
+    use proptest::strategy::ValueTree;
+    let count: usize = ctx.rest.get(0).and_then(|s| s.parse().ok()).unwrap_or(10);
+    let dir = ctx.out.clone().expect("--out dir");
+    std::fs::create_dir_all(&dir).ok();
+    let mut runner = crate::ctx::runner(ctx.stream_seed("gen-threads"), 1);
+    let strat = program(4);
+    for i in 0..count {
+        let mut p = strat.new_tree(&mut runner).expect("generate").current();
+        for h in p.hays.iter_mut() {
+            h.truncate(96);
+        }
+        p.needle.truncate(40);
+        for t in p.threads.iter_mut() {
+            t.truncate(3);
+        }
+        std::fs::write(format!("{}/prog-{}.txt", dir, i), p.encode()).expect("write program");
+    }
 }
